@@ -1,11 +1,12 @@
 -------------------------------- MODULE Peaks --------------------------------
 (* Peak clustering, merging, replacing and the waveform helpers (property C19):
    strax/processing/peak_building.py (find_peaks), peak_merging.py (merge_peaks, replace_merged),
-   peak_splitting.py (symmetric_moving_average), peak_properties.py (index_of_fraction).
+   peak_splitting.py (symmetric_moving_average, LocalMinimumSplitter / NaturalBreaksSplitter via PeakSplitter._split_peaks),
+   peak_properties.py (index_of_fraction, compute_widths), peak_building.py (sum_waveform, store_downsampled_waveform).
    Definitions over small integer inputs; rationals are pairs <<num, den>> so that the harness can
    compare exactly.  TLC enumerates the scope, checks the conservation laws and prints the expected
    results.  A hit is <<t, len, ch, area>> (dt = 1), sorted by time.                                *)
-EXTENDS Integers, Sequences, FiniteSets, TLC, Json
+EXTENDS Integers, Sequences, FiniteSets, TLC, Json, IOUtils
 
 CONSTANTS G,        \* time grid 0..G
           NH,       \* max number of hits / samples
@@ -78,6 +79,71 @@ IndexOfFractionDef(a, p, q) ==
      ELSE LET i == Min(S) x == a[i + 1] IN
           IF x = 0 THEN <<i, 1>> ELSE <<i * q * x + (p * A - q * cum(i)), q * x>>
 
+(* ------------------------------- splitting -------------------------------
+   PeakSplitter._split_peaks cuts a peak's waveform w (0-based samples 0..n-1) at the indices the algorithm yields; child k
+   covers samples [s(k-1), s(k)) with s(0) = 0.  P-level (both algorithms): the children tile [0, n) - contiguous, non-empty,
+   first starts at 0, last ends at n.  I-level for the local-minimum algorithm: a transcription of find_split_points
+   (prominent local minima: both neighbouring maxima exceed max(minimum + min_height, minimum * min_ratio)).            *)
+BIG == 1000000
+RECURSIVE LocalMinScan(_, _, _, _, _, _, _, _)
+\* w, i (0-based), last_max, min_since_max, min_since_max_i, min_height, min_ratio, splits so far
+LocalMinScan(w, i, lmax, msm, msmi, mh, mr, acc) ==
+  IF i >= Len(w) THEN (IF acc = <<>> THEN <<>> ELSE Append(acc, Len(w)))
+  ELSE LET x == w[i + 1]
+           msm1 == IF x < msm THEN x ELSE msm
+           msmi1 == IF x < msm THEN i ELSE msmi
+           split == Min({lmax, x}) > Max({msm1 + mh, msm1 * mr})
+           acc2 == IF split THEN Append(acc, msmi1) ELSE acc
+           lmax2 == IF split THEN x ELSE lmax
+           msm2 == IF split THEN BIG ELSE msm1
+           msmi2 == IF split THEN i ELSE msmi1
+           newmax == x > lmax2
+       IN LocalMinScan(w, i + 1, IF newmax THEN x ELSE lmax2, IF newmax THEN BIG ELSE msm2, IF newmax THEN i ELSE msmi2, mh, mr, acc2)
+LocalMinSplits(w, mh, mr) == LocalMinScan(w, 0, 0 - BIG, BIG, 0, mh, mr, <<>>)
+\* the cut indices s(1) < ... < s(m) = n tile [0, n)
+TilesParent(n, cuts) == cuts = <<>> \/ (/\ cuts[Len(cuts)] = n /\ cuts[1] > 0 /\ \A k \in 1..(Len(cuts) - 1) : cuts[k] < cuts[k + 1])
+SplitParams == << <<0, 0>>, <<1, 0>>, <<0, 2>>, <<2, 3>> >>
+\* observations of real splits (natural breaks: the cut index is a float computation, only the P-level is decided here):
+\* [n, kids = <<start, length>> relative to the parent, err]
+SplitObs == JsonDeserialize(IOEnv.TRACE_FILE)
+ObsTiles(o) == /\ o.err = ""
+               /\ o.kids = <<>> \/ (/\ o.kids[1][1] = 0 /\ o.kids[Len(o.kids)][1] + o.kids[Len(o.kids)][2] = o.n
+                                    /\ \A k \in 1..Len(o.kids) : o.kids[k][2] > 0
+                                    /\ \A k \in 1..(Len(o.kids) - 1) : o.kids[k][1] + o.kids[k][2] = o.kids[k + 1][1])
+
+(* ------------------------------- summed waveform and down-sampling -------------------------------
+   Two channels, one record each (time 0, dt 1, baseline 0): rec[ch] = sequence of S samples.  Hits = maximal runs of samples
+   >= 1.  A peak covers samples [pt, pt + pl) of the time axis and has a buffer of NB samples.  sum_waveform adds, per hit that
+   overlaps the peak, the record samples of the overlap times to_pe[ch]; area = sum of all contributions, area_per_channel
+   likewise per channel; store_downsampled_waveform sums groups of f = ceil(pl / NB) samples and keeps floor(pl / f) groups. *)
+ToPE == <<1, 2>>
+InHit(r, k) == k >= 0 /\ k < Len(r) /\ r[k + 1] >= 1           \* sample k (0-based) of record r belongs to a hit
+WfSample(recs, ch, t) == IF InHit(recs[ch], t) THEN recs[ch][t + 1] * ToPE[ch] ELSE 0
+Wf(recs, pt, pl) == [k \in 1..pl |-> WfSample(recs, 1, pt + k - 1) + WfSample(recs, 2, pt + k - 1)]
+CeilDiv(a, b) == (a + b - 1) \div b
+SumWfDef(recs, pt, pl, nb) ==
+  LET wf == Wf(recs, pt, pl)
+      f == CeilDiv(pl, nb)
+      len2 == IF f > 1 THEN pl \div f ELSE pl
+      data == [j \in 1..len2 |-> SumSeq(SubSeq(wf, (j - 1) * f + 1, j * f))]
+  IN [area |-> SumSeq(wf), apc |-> [ch \in 1..2 |-> SumSeq([k \in 1..pl |-> WfSample(recs, ch, pt + k - 1)])],
+      dt |-> f, length |-> len2, data |-> data, lost |-> SumSeq(wf) - SumSeq(data)]
+\* conservation: the waveform integrates to the area and to the per-channel sums; what down-sampling drops is exactly the
+\* tail that does not fill a group (lost = 0 iff the property's "also after down-sampling" holds for this input)
+SumWfLaws(recs, pt, pl, nb) == LET o == SumWfDef(recs, pt, pl, nb) IN
+  /\ o.area = o.apc[1] + o.apc[2] /\ o.lost >= 0 /\ o.length * o.dt <= pl /\ o.length <= nb
+  /\ (pl % o.dt = 0 => o.lost = 0)
+\* peak windows: peaks are built from hits, so a window holds at least one hit sample (sum_waveform leaves peaks after the last hit alone)
+PeakWindowsOf(recs) == {<<pt, pl>> \in (0..(Len(recs[1]) - 1)) \X (1..Len(recs[1])) :
+                          pt + pl <= Len(recs[1]) /\ \E k \in pt..(pt + pl - 1) : InHit(recs[1], k) \/ InHit(recs[2], k)}
+
+(* ------------------------------- widths -------------------------------
+   compute_widths: for area fractions 0, 0.1, .., 1: width[k] = t(0.5 + f/2) - t(0.5 - f/2), area_decile_from_midpoint[k] =
+   t(f) - t(0.5), with t(q) = dt * index_of_fraction(q).  Rationals as <<num, den>>.                                   *)
+RatSub(a, b) == <<a[1] * b[2] - b[1] * a[2], a[2] * b[2]>>
+WidthDef(w, k) == RatSub(IndexOfFractionDef(w, 10 + k, 20), IndexOfFractionDef(w, 10 - k, 20))          \* f = k / 10
+DecileDef(w, k) == RatSub(IndexOfFractionDef(w, k, 10), IndexOfFractionDef(w, 1, 2))
+
 (* ------------------------------- case enumeration ------------------------------- *)
 VARIABLE c
 HitSet == {<<t, l, ch, ar>> \in (0..G) \X (1..2) \X (0..1) \X (1..2) : TRUE}
@@ -89,6 +155,11 @@ Init == \/ Kind = "findpeaks" /\ c \in SortedHits \ {<<>>}
         \/ Kind = "merge" /\ c \in DisjointPeaks
         \/ Kind = "sma" /\ c \in WaveSet
         \/ Kind = "iof" /\ c \in {w \in WaveSet : SumSeq(w) > 0}
+        \/ Kind = "split" /\ c \in {w \in WaveSet : Len(w) >= 2 /\ SumSeq(w) > 0}
+        \/ Kind = "sumwf" /\ c \in {<<r1, r2>> : r1 \in [1..NH -> 0..2], r2 \in {[k \in 1..NH |-> 0], [k \in 1..NH |-> IF k % 2 = 0 THEN 1 ELSE 0],
+                                                                                  [k \in 1..NH |-> IF k > 2 THEN 2 ELSE 0]}}
+        \/ Kind = "widths" /\ c \in {w \in WaveSet : SumSeq(w) > 0}
+        \/ Kind = "splitobs" /\ c \in 1..Len(SplitObs)
 Spec == Init /\ [][UNCHANGED c]_c
 
 Params == << <<3, <<0, 0>>, 1000>>, <<2, <<0, 1>>, 1000>>, <<4, <<1, 2>>, 1000>>, <<3, <<1, 1>>, 6>>, <<5, <<2, 2>>, 1000>> >>
@@ -98,12 +169,15 @@ Laws == CASE Kind = "findpeaks" -> \A k \in 1..Len(Params) : PeakLaws(c, Params[
                                  /\ SumSeq([k \in 1..Len(r) |-> r[k][3]]) = SumSeq([k \in 1..Len(c) |-> c[k][3]])   \* area conserved
                                  /\ \A k \in 1..(Len(r) - 1) : r[k][2] <= r[k + 1][1]                                 \* still disjoint, ordered
                                  /\ Len(r) = Len(c) - (w[2] - w[1]) + 1
+          [] Kind = "split" -> \A k \in 1..Len(SplitParams) : TilesParent(Len(c), LocalMinSplits(c, SplitParams[k][1], SplitParams[k][2]))
+          [] Kind = "splitobs" -> ObsTiles(SplitObs[c])
+          [] Kind = "sumwf" -> \A win \in PeakWindowsOf(c) : \A nb \in {2, 3, NH} : SumWfLaws(c, win[1], win[2], nb)
           [] OTHER -> TRUE
 Fracs == << <<0, 1>>, <<1, 10>>, <<1, 4>>, <<1, 2>>, <<3, 4>>, <<9, 10>>, <<1, 1>> >>
-WinSeq(n) == LET S == Windows(n)
-                 RECURSIVE f(_)
-                 f(T) == IF T = {} THEN <<>> ELSE LET x == CHOOSE y \in T : TRUE IN <<x>> \o f(T \ {x})
-             IN f(S)
+SetToSeq(S) == LET RECURSIVE f(_)
+                   f(T) == IF T = {} THEN <<>> ELSE LET x == CHOOSE y \in T : TRUE IN <<x>> \o f(T \ {x})
+               IN f(S)
+WinSeq(n) == SetToSeq(Windows(n))
 Out ==
   CASE Kind = "findpeaks" -> [hits |-> c, params |-> Params,
                               peaks |-> [k \in 1..Len(Params) |-> <<FindPeaksDef(c, Params[k][1], Params[k][2], 0, 1, Params[k][3]),
@@ -113,5 +187,11 @@ Out ==
                           replaced |-> [k \in 1..Len(ws) |-> ReplaceDef(c, <<MergeDef(c, ws[k][1], ws[k][2])>>)]]
     [] Kind = "sma" -> [w |-> c, sma |-> [k \in 0..3 |-> SMADef(c, k)]]
     [] Kind = "iof" -> [w |-> c, fracs |-> Fracs, idx |-> [k \in 1..Len(Fracs) |-> IndexOfFractionDef(c, Fracs[k][1], Fracs[k][2])]]
+    [] Kind = "split" -> [w |-> c, params |-> SplitParams, cuts |-> [k \in 1..Len(SplitParams) |-> LocalMinSplits(c, SplitParams[k][1], SplitParams[k][2])]]
+    [] Kind = "sumwf" -> LET ws == SetToSeq(PeakWindowsOf(c)) IN
+                         [recs |-> c, windows |-> ws, nbs |-> <<2, 3, NH>>,
+                          out |-> [i \in 1..Len(ws) |-> [j \in 1..3 |-> SumWfDef(c, ws[i][1], ws[i][2], <<2, 3, NH>>[j])]]]
+    [] Kind = "splitobs" -> [tid |-> c]
+    [] Kind = "widths" -> [w |-> c, width |-> [k \in 0..10 |-> WidthDef(c, k)], decile |-> [k \in 0..10 |-> DecileDef(c, k)]]
 Emit == PrintT(ToJson(Out))
 =============================================================================
